@@ -55,7 +55,7 @@ SubmitStep ==
   /\ NextJob <= Len(JobKeys) /\ NextJob <= MaxJ
   /\ LET j == NextJob IN
      /\ jb' = [jb EXCEPT ![j] = [NoJob EXCEPT !.sub = TRUE, !.key = JobKeys[j], !.ttl = JobTtl[j], !.port = j \in PortJobs, !.born = now, !.undeliv = ~FactoryUp,
-                                            !.seq = mon.nseq + 1, !.rleft = IF j \in RetryJobs THEN Retries ELSE 0]]
+                                            !.seq = mon.nseq + 1, !.rleft = IF j \in RetryJobs THEN Retries ELSE 0, !.r0 = IF j \in RetryJobs THEN Retries ELSE 0]]
      /\ fmq' = IF FactoryUp THEN Append(fmq, Msg("dispatch", j, JobKeys[j], "", 0)) ELSE fmq
   /\ mon' = [mon EXCEPT !.nseq = @ + 1]
   /\ env' = [env EXCEPT !.nsub = @ + 1]
